@@ -48,9 +48,9 @@ open EvalFilter.Exec EvalFilter.Compiler in
 /-- **A compound assignment `x op= e` changes `x` and nothing else** (end to end: this is the outcome the
     compiled code produces, by `C02_program_correct`): if it completes, the environment is the old one with
     `x` set to `x op e`; every other variable reads as before. -/
-theorem C15_compound_assignment (M : Machine) (obj : HostVal) (f : Nat) (op : Str) (name : Str) (r : Expr)
+theorem C15_compound_assignment (M : Machine) (F : FnTable) (obj : HostVal) (depth f : Nat) (op : Str) (name : Str) (r : Expr)
     (env env' : Env) (out out' : Str)
-    (h : execE M obj (f + 1) (.infix op (.ident name) r) env out = .normal env' out') :
+    (h : execE M F obj depth (f + 1) (.infix op (.ident name) r) env out = .normal env' out') :
     (∃ v, env' = env.set name v) ∧ ∀ other, other ≠ name → env'.get other = env.get other := by
   simp only [execE] at h
   cases hco : compoundOp op with
